@@ -285,31 +285,60 @@ fn line_source_faults(ctx: &mut Ctx, t: bool) {
         let vals: Arc<Vec<usize>> = Arc::new((0..n).map(|i| i % 7).collect());
         // builder seed 0: the first attempt succeeds for these key sets; seed 5: two failed attempts first,
         // so the reader is sought back twice (read faults in later passes and seek faults become reachable)
-        for (filter, bseed) in [(false, 0u64), (true, 0), (false, 5), (true, 5)] {
+        for (filter, bseed, src) in [(false, 0u64, 0usize), (true, 0, 0), (false, 5, 0), (true, 5, 0), (false, 5, 1), (true, 5, 1), (false, 0, 1), (false, 5, 2), (true, 5, 2), (false, 0, 2)] {
+            // src: 0 = LineLender, 1 = GzipLineLender, 2 = ZstdLineLender (the reader then serves the compressed
+            // bytes, and the fault offsets are offsets into them)
+            let srcname = ["LineLender", "GzipLineLender", "ZstdLineLender"][src];
+            let text: Arc<Vec<u8>> = match src {
+                0 => text.clone(),
+                1 => {
+                    use std::io::Write;
+                    let mut e = flate2::write::GzEncoder::new(Vec::new(), flate2::Compression::default());
+                    e.write_all(&text).unwrap();
+                    Arc::new(e.finish().unwrap())
+                }
+                _ => Arc::new(zstd::encode_all(&text[..], 3).unwrap()),
+            };
+            let text = &text;
             let run = |fail_at: Option<(usize, usize)>| -> (Result<usize, String>, bool, usize) {
                 let st = Arc::new(Mutex::new((false, 1usize)));
                 let rd = FaultyReader { data: text.clone(), pos: 0, pass: 0, fail_at, delivered: st.clone() };
-                let kl = LineLender::new(io::BufReader::with_capacity(16, rd));
-                let out = if filter {
-                    VBuilder::<usize, BitFieldVec<usize>>::default()
-                        .seed(bseed)
-                        .expected_num_keys(n)
-                        .try_build_filter::<str>(kl, 9, no_logging![])
-                        .map(|f| keys.iter().filter(|k| !f.contains(k.as_str())).count() + usize::from(f.len() != n))
-                        .map_err(|e| format!("{e:#}"))
-                } else {
-                    let (vl, _) = FaultyLender::new(vals.clone(), Fault::None, "unused");
-                    VBuilder::<usize, BitFieldVec<usize>>::default()
-                        .seed(bseed)
-                        .expected_num_keys(n)
-                        .try_build_func::<str>(kl, vl, no_logging![])
-                        .map(|f| (0..n).filter(|&i| f.get(keys[i].as_str()) != vals[i]).count() + usize::from(f.len() != n))
-                        .map_err(|e| format!("{e:#}"))
+                macro_rules! go {
+                    ($kl:expr) => {{
+                        let kl = $kl;
+                        if filter {
+                            VBuilder::<usize, BitFieldVec<usize>>::default()
+                                .seed(bseed)
+                                .expected_num_keys(n)
+                                .try_build_filter::<str>(kl, 9, no_logging![])
+                                .map(|f| keys.iter().filter(|k| !f.contains(k.as_str())).count() + usize::from(f.len() != n))
+                                .map_err(|e| format!("{e:#}"))
+                        } else {
+                            let (vl, _) = FaultyLender::new(vals.clone(), Fault::None, "unused");
+                            VBuilder::<usize, BitFieldVec<usize>>::default()
+                                .seed(bseed)
+                                .expected_num_keys(n)
+                                .try_build_func::<str>(kl, vl, no_logging![])
+                                .map(|f| (0..n).filter(|&i| f.get(keys[i].as_str()) != vals[i]).count() + usize::from(f.len() != n))
+                                .map_err(|e| format!("{e:#}"))
+                        }
+                    }};
+                }
+                let out: Result<usize, String> = match src {
+                    0 => go!(LineLender::new(io::BufReader::with_capacity(16, rd))),
+                    1 => match sux::utils::GzipLineLender::new(rd) {
+                        Ok(kl) => go!(kl),
+                        Err(e) => Err(format!("{e:#}")),
+                    },
+                    _ => match sux::utils::ZstdLineLender::new(rd) {
+                        Ok(kl) => go!(kl),
+                        Err(e) => Err(format!("{e:#}")),
+                    },
                 };
                 let g = st.lock().unwrap();
                 (out, g.0, g.1)
             };
-            if !ctx.common_case(|| format!("VBuilder::<fault-free reference build over LineLender> filter={filter} n={n} builder_seed={bseed}")) {
+            if !ctx.common_case(|| format!("VBuilder::<fault-free reference build over {srcname}> filter={filter} n={n} builder_seed={bseed}")) {
                 continue;
             }
             let (r0, _, passes) = match guard(|| run(None)) {
@@ -334,7 +363,7 @@ fn line_source_faults(ctx: &mut Ctx, t: bool) {
                         continue; // no rewind after the last pass
                     }
                     let boundary = off >= text.len() || off == 0 || text[off - 1] == b'\n';
-                    if !ctx.case(|| format!("VBuilder::try_build keys through LineLender filter={filter} n={n} builder_seed={bseed} passes={passes} fault: the reader fails at byte {off} of pass {p} ({})", if off == usize::MAX { "= the seek back to 0 after this pass" } else if boundary { "a line boundary" } else { "inside a line" })) {
+                    if !ctx.case(|| format!("VBuilder::try_build keys through {srcname} filter={filter} n={n} builder_seed={bseed} passes={passes} fault: the reader fails at byte {off} of pass {p} ({})", if off == usize::MAX { "= the seek back to 0 after this pass" } else if boundary { "a line boundary" } else { "inside a line" })) {
                         continue;
                     }
                     ctx.nontrivial();
